@@ -90,32 +90,143 @@ type qopts struct {
 	noSkip    bool
 }
 
-func (g *gen) qopts(v byte) qopts {
+// session-level defaults (what NewSession takes from the ClusterConfig) ...
+type sessDefaults struct {
+	cons, serial uint16
+	pageSize     int
+	dts, trace   bool
+	prefetch     float64
+	idem         bool
+}
+
+func (g *gen) sessDefaults() sessDefaults {
 	r := g.r
-	q := qopts{cons: g.cons()}
-	if r.Chance(40) {
-		q.serial = uint16(r.Pick(8, 9))
+	return sessDefaults{cons: g.cons(), serial: uint16(r.Pick(0, 0, 8, 9)), pageSize: int(r.Pick(0, 0, 5000, 10)), dts: r.Bool(),
+		trace: r.Chance(25), prefetch: []float64{0.25, 0.75, 0}[r.Intn(3)], idem: r.Bool()}
+}
+
+func (sd sessDefaults) shim() gocql.VerifC03SessionDefaults {
+	d := gocql.VerifC03SessionDefaults{Consistency: sd.cons, PageSize: sd.pageSize, SerialConsistency: sd.serial, DefaultTimestamp: sd.dts,
+		Prefetch: sd.prefetch, DefaultIdempotence: sd.idem}
+	if sd.trace {
+		d.Trace = nopTracer{}
+	}
+	return d
+}
+
+func (sd sessDefaults) String() string {
+	return fmt.Sprintf("session{cons=%d serial=%d pageSize=%d defaultTimestamp=%v trace=%v prefetch=%v idempotent=%v}", sd.cons, sd.serial, sd.pageSize, sd.dts, sd.trace, sd.prefetch, sd.idem)
+}
+
+// ... and the per-Query / per-Batch settings on top of them.  Every option that exists on both levels is,
+// independently of the session's value, inherited, set explicitly, or explicitly switched off; the returned
+// qopts holds the resolved values (= what was asked for), the closures apply the choices to a Query / Batch.
+// base is what the object inherited (the session defaults; nothing for the deprecated package-level NewBatch).
+func (g *gen) qchoice(v byte, base sessDefaults) (qopts, func(*gocql.Query), func(*gocql.Batch), string) {
+	r := g.r
+	q := qopts{cons: base.cons, serial: base.serial, dts: base.dts, pageSize: base.pageSize, tracing: base.trace}
+	var qa []func(*gocql.Query)
+	var ba []func(*gocql.Batch)
+	var desc []string
+	if r.Bool() {
+		c := g.cons()
+		q.cons = c
+		qa = append(qa, func(x *gocql.Query) { x.Consistency(gocql.Consistency(c)) })
+		ba = append(ba, func(x *gocql.Batch) { x.Cons = gocql.Consistency(c) })
+		desc = append(desc, fmt.Sprintf("Consistency(%d)", c))
+	}
+	switch r.Intn(3) {
+	case 1:
+		c := uint16(r.Pick(8, 9))
+		q.serial = c
+		qa = append(qa, func(x *gocql.Query) { x.SerialConsistency(gocql.SerialConsistency(c)) })
+		ba = append(ba, func(x *gocql.Batch) { x.SerialConsistency(gocql.SerialConsistency(c)) })
+		desc = append(desc, fmt.Sprintf("SerialConsistency(%d)", c))
+	case 2:
+		q.serial = 0
+		qa = append(qa, func(x *gocql.Query) { x.SerialConsistency(0) })
+		ba = append(ba, func(x *gocql.Batch) { x.SerialConsistency(0) })
+		desc = append(desc, "SerialConsistency(0)")
 	}
 	switch r.Intn(4) {
-	case 0:
-		q.dts = true
 	case 1:
-		q.dts, q.dtsv = true, r.Pick(1, -1, 1700000000000000, r.I64())
+		q.dts, q.dtsv = true, 0
+		qa = append(qa, func(x *gocql.Query) { x.DefaultTimestamp(true) })
+		ba = append(ba, func(x *gocql.Batch) { x.DefaultTimestamp(true) })
+		desc = append(desc, "DefaultTimestamp(true)")
+	case 2:
+		t := r.Pick(1, -1, 1700000000000000, r.I64())
+		if t == 0 {
+			t = 7
+		}
+		q.dts, q.dtsv = true, t
+		qa = append(qa, func(x *gocql.Query) { x.WithTimestamp(t) })
+		ba = append(ba, func(x *gocql.Batch) { x.WithTimestamp(t) })
+		desc = append(desc, fmt.Sprintf("WithTimestamp(%d)", t))
+	case 3:
+		q.dts, q.dtsv = false, 0
+		qa = append(qa, func(x *gocql.Query) { x.DefaultTimestamp(false) })
+		ba = append(ba, func(x *gocql.Batch) { x.DefaultTimestamp(false) })
+		desc = append(desc, "DefaultTimestamp(false)")
+	}
+	switch r.Intn(3) {
+	case 1:
+		n := int(r.Pick(1, 100, 5000, 65536, 1<<31-1))
+		q.pageSize = n
+		qa = append(qa, func(x *gocql.Query) { x.PageSize(n) })
+		desc = append(desc, fmt.Sprintf("PageSize(%d)", n))
+	case 2:
+		n := int(r.Pick(0, -1))
+		q.pageSize = n
+		qa = append(qa, func(x *gocql.Query) { x.PageSize(n) })
+		desc = append(desc, fmt.Sprintf("PageSize(%d)", n))
+	}
+	switch r.Intn(3) {
+	case 1:
+		q.tracing = true
+		qa = append(qa, func(x *gocql.Query) { x.Trace(nopTracer{}) })
+		ba = append(ba, func(x *gocql.Batch) { x.Trace(nopTracer{}) })
+		desc = append(desc, "Trace(t)")
+	case 2:
+		q.tracing = false
+		qa = append(qa, func(x *gocql.Query) { x.Trace(nil) })
+		ba = append(ba, func(x *gocql.Batch) { x.Trace(nil) })
+		desc = append(desc, "Trace(nil)")
 	}
 	if r.Chance(40) {
 		q.pageState = r.Bytes(1 + r.Intn(16))
 	} else if r.Bool() {
 		q.pageState = []byte{}
 	}
-	if r.Chance(50) {
-		q.pageSize = int(r.Pick(1, 100, 5000, 65536, 1<<31-1))
-	} else if r.Chance(20) {
-		q.pageSize = int(r.Pick(0, -1))
+	if q.pageState != nil {
+		ps := q.pageState
+		qa = append(qa, func(x *gocql.Query) { x.PageState(ps) })
 	}
 	q.payload = g.payload(v, v >= 4 && r.Chance(35))
-	q.tracing = r.Chance(30)
+	if q.payload != nil {
+		pl := q.payload
+		qa = append(qa, func(x *gocql.Query) { x.CustomPayload(pl) })
+		ba = append(ba, func(x *gocql.Batch) { x.CustomPayload = pl })
+	}
 	q.noSkip = r.Chance(30)
-	return q
+	if q.noSkip {
+		qa = append(qa, func(x *gocql.Query) { x.NoSkipMetadata() })
+	}
+	// options without any place in a request frame: they must not change it
+	if r.Bool() {
+		pf, idem := []float64{0, 0.5, 1}[r.Intn(3)], r.Bool()
+		qa = append(qa, func(x *gocql.Query) { x.Prefetch(pf).Idempotent(idem) })
+		desc = append(desc, fmt.Sprintf("Prefetch(%v).Idempotent(%v)", pf, idem))
+	}
+	return q, func(x *gocql.Query) {
+			for _, f := range qa {
+				f(x)
+			}
+		}, func(x *gocql.Batch) {
+			for _, f := range ba {
+				f(x)
+			}
+		}, strings.Join(desc, ".")
 }
 
 func qiTerm(q *qopts) string {
@@ -164,7 +275,7 @@ func connMonitor(o *hlib.Out, idx int, what string, v byte, tracing bool, frame 
 
 func connCases(o *hlib.Out, g *gen) {
 	r := g.r
-	n := 12 * o.Scale
+	n := 30 * o.Scale
 	if o.Search {
 		n = 40 * o.Scale
 	}
@@ -182,7 +293,9 @@ func connCases(o *hlib.Out, g *gen) {
 			disableSkip := r.Chance(30)
 			vc := gocql.VerifC03NewConn(v, comp, ks, disableSkip)
 			s := vc.Session()
-			q := g.qopts(v)
+			sd := g.sessDefaults()
+			vc.SetSessionDefaults(sd.shim())
+			q, applyQ, _, choices := g.qchoice(v, sd)
 			mode := r.Intn(4) // 0: unprepared statement, 1,2: prepared in the cache, 3: cache miss (PREPARE goes out)
 			var stmt string
 			var vals []apiValue
@@ -201,37 +314,13 @@ func connCases(o *hlib.Out, g *gen) {
 			for k, a := range vals {
 				args[k] = a.arg()
 			}
-			qry := s.Query(stmt, args...).Consistency(gocql.Consistency(q.cons))
-			if q.serial != 0 {
-				qry.SerialConsistency(gocql.SerialConsistency(q.serial))
-			}
-			if q.dts {
-				if q.dtsv != 0 {
-					qry.WithTimestamp(q.dtsv)
-				} else {
-					qry.DefaultTimestamp(true)
-				}
-			}
-			if q.pageState != nil {
-				qry.PageState(q.pageState)
-			}
-			if q.pageSize != 0 {
-				qry.PageSize(q.pageSize)
-			}
-			if q.payload != nil {
-				qry.CustomPayload(q.payload)
-			}
-			if q.tracing {
-				qry.Trace(nopTracer{})
-			}
-			if q.noSkip {
-				qry.NoSkipMetadata()
-			}
+			qry := s.Query(stmt, args...)
+			applyQ(qry)
 			t0 := time.Now().UnixNano() / 1000
 			frames, msg := vc.ExecQuery(qry)
 			t1 := time.Now().UnixNano() / 1000
 			input := map[string]interface{}{"version": v, "compressor": hasComp, "keyspace": ks, "statement": stmt, "mode": mode, "options": qiTerm(&q),
-				"values": valuesTerm(toShim(vals)), "tracing": q.tracing, "disable_skip_metadata": disableSkip || q.noSkip, "error": msg}
+				"values": valuesTerm(toShim(vals)), "tracing": q.tracing, "session_defaults": sd.String(), "query_settings": choices, "disable_skip_metadata": disableSkip || q.noSkip, "error": msg}
 			payloadRefused := len(q.payload) > 0 && v < 4
 			if strings.HasPrefix(msg, "panic:") && !payloadRefused {
 				o.Violate(-1, "conn-panic", "", "Conn.executeQuery panicked: "+msg, input)
@@ -299,25 +388,18 @@ func connCases(o *hlib.Out, g *gen) {
 			}
 			ks := []string{"", "ks1"}[r.Intn(2)]
 			vc := gocql.VerifC03NewConn(v, comp, ks, false)
-			b := vc.Session().NewBatch(gocql.BatchType(r.Pick(0, 1, 2)))
-			q := g.qopts(v)
-			b.Cons = gocql.Consistency(q.cons)
-			if q.serial != 0 {
-				b.SerialConsistency(gocql.SerialConsistency(q.serial))
+			sd := g.sessDefaults()
+			vc.SetSessionDefaults(sd.shim())
+			base, how := sd, "Session.NewBatch"
+			var b *gocql.Batch
+			if r.Chance(25) {
+				// the deprecated package-level constructor: nothing is inherited from the session
+				b, base, how = gocql.NewBatch(gocql.BatchType(r.Pick(0, 1, 2))), sessDefaults{}, "gocql.NewBatch"
+			} else {
+				b = vc.Session().NewBatch(gocql.BatchType(r.Pick(0, 1, 2)))
 			}
-			if q.dts {
-				if q.dtsv != 0 {
-					b.WithTimestamp(q.dtsv)
-				} else {
-					b.DefaultTimestamp(true)
-				}
-			}
-			if q.payload != nil {
-				b.CustomPayload = q.payload
-			}
-			if q.tracing {
-				b.Trace(nopTracer{})
-			}
+			q, _, applyB, choices := g.qchoice(v, base)
+			applyB(b)
 			ne := r.Intn(5)
 			var entryTerms []string
 			want := &gocql.VerifC03Request{Kind: gocql.VerifC03Batch, BatchType: byte(b.Type), Consistency: q.cons, SerialCons: q.serial, DefaultTS: q.dts, DefaultTSVal: q.dtsv, CustomPayload: q.payload}
@@ -345,7 +427,8 @@ func connCases(o *hlib.Out, g *gen) {
 			t0 := time.Now().UnixNano() / 1000
 			frames, msg := vc.ExecBatch(b)
 			t1 := time.Now().UnixNano() / 1000
-			input := map[string]interface{}{"version": v, "compressor": hasComp, "keyspace": ks, "batch": requestTerm(want), "tracing": q.tracing, "error": msg}
+			input := map[string]interface{}{"version": v, "compressor": hasComp, "keyspace": ks, "batch": requestTerm(want), "tracing": q.tracing, "error": msg,
+				"session_defaults": sd.String(), "constructor": how, "batch_settings": choices}
 			payloadRefused := len(q.payload) > 0 && v < 4
 			if strings.HasPrefix(msg, "panic:") && !payloadRefused {
 				o.Violate(-1, "conn-panic", "", "Conn.executeBatch panicked: "+msg, input)
@@ -413,6 +496,8 @@ func connCases(o *hlib.Out, g *gen) {
 				comp = toyComp{}
 			}
 			vc := gocql.VerifC03NewConn(v, comp, "", false)
+			sd := g.sessDefaults()
+			vc.SetSessionDefaults(sd.shim())
 			frames, msg := vc.UseKeyspace(ks)
 			if hasComp && msg == "toy compressor refuses this length" && len(frames) == 0 {
 				o.Count("conn/compressor-error")
@@ -425,9 +510,9 @@ func connCases(o *hlib.Out, g *gen) {
 			f := frames[0]
 			idx := -1
 			if !o.Search {
-				idx = o.Case("conn/use", true, fmt.Sprintf("CConnUse %d %s %d %s %d %s", v, hlib.Bool(hasComp), uint16(gocql.Quorum), strTerm(ks), frameStream(v, f), bytesTerm(f)))
+				idx = o.Case("conn/use", true, fmt.Sprintf("CConnUse %d %s %d %s %d %s", v, hlib.Bool(hasComp), sd.cons, strTerm(ks), frameStream(v, f), bytesTerm(f)))
 			}
-			want := &gocql.VerifC03Request{Kind: gocql.VerifC03Query, Statement: `USE "` + ks + `"`, Params: gocql.VerifC03Params{Consistency: uint16(gocql.Quorum)}}
+			want := &gocql.VerifC03Request{Kind: gocql.VerifC03Query, Statement: `USE "` + ks + `"`, Params: gocql.VerifC03Params{Consistency: sd.cons}}
 			connMonitor(o, idx, "USE", v, false, f, want, 0, 0, map[string]interface{}{"version": v, "keyspace": ks})
 		}
 	}
